@@ -1,7 +1,32 @@
 """C14 — declared exports (operation declaration file) match what the loader's JS module exports."""
+import os
 import shutil
 
 import vlib
+
+LOADER_PKG = "c14-loader"
+
+
+def loader_build(ctx, timeout=1500):
+    """harness/c14-loader: the loader's main.rs compiled unmodified as an rlib + a batch driver (own workspace;
+    target dir shared with C19's shim so the dependency artefacts are reused)."""
+    vlib._prepare_alt_harness()
+    pkg = os.path.join(vlib.HARNESS, LOADER_PKG)
+    lock_src = os.path.join(vlib.REPO, "Cargo.lock")
+    lock_dst = os.path.join(pkg, "Cargo.lock")
+    if not os.path.exists(lock_dst):
+        shutil.copyfile(lock_src, lock_dst)
+    target = vlib.TARGET + "-loader"
+    env = dict(vlib.CARGO_ENV, CARGO_TARGET_DIR=target)
+    cmd = ["timeout", str(timeout), "cargo", "build", "--offline", "--bin", "c14loader"]
+    rc, out = vlib.sh(cmd, cwd=pkg, env=env)
+    if rc != 0 and "Cargo.lock" in out:
+        shutil.copyfile(lock_src, lock_dst)
+        rc, out = vlib.sh(cmd, cwd=pkg, env=env)
+    if rc != 0:
+        ctx.log("c14-loader build FAILED")
+        ctx.log(out[-3000:])
+    return rc == 0, os.path.join(target, "debug", "c14loader")
 
 
 def classify(case, kind):
@@ -31,6 +56,12 @@ def run(ctx):
     # `nitrogql-cli generate` (cli/src/generate.rs, load_config, file indices as the CLI assigns them)
     ok, cli = vlib.cli_build(ctx)
     extra = ["--cli", cli] if ok else []
+    ok, loader = loader_build(ctx)
+    if ok:
+        extra += ["--loader", loader]
+    else:
+        vlib.violation(ctx, "the loader does not build from the working tree; its real emit_js was not run",
+                       {"stage": "loader-build"}, found_input=False)
     node = shutil.which("node")
     if node:
         extra += ["--node", node]
@@ -50,7 +81,8 @@ def run(ctx):
             "the printed TypeScript types and the runtime JSON of each definition are not modelled for C14: they enter the model as data (defbody), cut by the harness from a reference run; the cut is not trusted (the model's op list re-assembled from the pieces is compared with the complete recorded op list), the theorems quantify over all bodies without an export keyword chunk and that guard is evaluated on every recorded body",
             "an export statement is recognised on the writer-operation list by the chunks the visitors write for it (C14/Model.v: scan); its agreement with the `export const` / `export { … as default }` lines of the generated texts is checked on every case whose configured suffixes are identifier-like",
             "serde/serde_yaml (config text -> struct) is inside the comparison, not modelled: the model starts from which keys are present in the text",
-            "crates/graphql-loader is a bin crate: its print_js (SourceWriter + OperationJSPrinterOptions::from_config + print_js_for_operation_document) is replicated in the harness; that the loader parses every file with file index 0 is modelled by loader_view and compared with a real re-parse",
+            "the loader's Rust side runs for real: harness/c14-loader compiles /repo/crates/graphql-loader/src/main.rs unmodified as an rlib and drives load_config / initiate_task / get_required_files / load_file / emit_js as loader-core's task.ts does (not executed: that TypeScript glue); that the loader parses every file with file index 0 is modelled by loader_view and compared with a real re-parse",
+            "node (when present) as ECMAScript oracle: a share of the texts emit_js returned is really imported",
         ],
         assumptions=[
             "guards in the theorem statements: bodies_ok (no unmodelled body contains a chunk equal to 'export ', 'const ' or 'export { ') and names_ok (no result/variables type name is, as a whole, one of those three chunks)",
